@@ -168,6 +168,59 @@ func analyseMapRange(mr mapRange) (findings []detFinding, accepted []string) {
 			return true
 		})
 	}
+	// boolean locals of the body that are defined once (`better := len(k) > len(best) || ...; if better {`): a guard
+	// that names one stands for its defining expression
+	boolDef := map[types.Object]ast.Expr{}
+	nDef := map[types.Object]int{}
+	ast.Inspect(rs.Body, func(n ast.Node) bool {
+		as, ok := n.(*ast.AssignStmt)
+		if !ok {
+			return true
+		}
+		for i, l := range as.Lhs {
+			id, ok := l.(*ast.Ident)
+			if !ok {
+				continue
+			}
+			o := info.Defs[id]
+			if o == nil {
+				o = info.Uses[id]
+			}
+			if o == nil || !inBody(o) {
+				continue
+			}
+			nDef[o]++
+			if as.Tok == token.DEFINE && len(as.Lhs) == len(as.Rhs) {
+				if bt, isB := o.Type().Underlying().(*types.Basic); isB && bt.Info()&types.IsBoolean != 0 {
+					boolDef[o] = as.Rhs[i]
+				}
+			}
+		}
+		return true
+	})
+	var expandBools func(e ast.Expr, depth int) ast.Expr
+	expandBools = func(e ast.Expr, depth int) ast.Expr {
+		if depth > 3 {
+			return e
+		}
+		switch x := e.(type) {
+		case *ast.Ident:
+			if o := info.Uses[x]; o != nil && nDef[o] == 1 && boolDef[o] != nil {
+				return &ast.ParenExpr{X: expandBools(boolDef[o], depth+1)}
+			}
+		case *ast.ParenExpr:
+			return &ast.ParenExpr{X: expandBools(x.X, depth)}
+		case *ast.UnaryExpr:
+			if x.Op == token.NOT {
+				return &ast.UnaryExpr{Op: token.NOT, X: expandBools(x.X, depth)}
+			}
+		case *ast.BinaryExpr:
+			if x.Op == token.LAND || x.Op == token.LOR {
+				return &ast.BinaryExpr{X: expandBools(x.X, depth), Op: x.Op, Y: expandBools(x.Y, depth)}
+			}
+		}
+		return e
+	}
 	hasBreak := false
 	var taintedOuterAssign []token.Pos
 	var walk func(n ast.Node, guard []ast.Expr)
@@ -177,7 +230,7 @@ func analyseMapRange(mr mapRange) (findings []detFinding, accepted []string) {
 			// `if cond { ...; continue }`: what follows in the same list runs only when cond is false
 			if is, ok := s.(*ast.IfStmt); ok && is.Else == nil && is.Init == nil && len(is.Body.List) > 0 {
 				if br, ok := is.Body.List[len(is.Body.List)-1].(*ast.BranchStmt); ok && br.Tok == token.CONTINUE {
-					guard = append(append([]ast.Expr{}, guard...), &ast.UnaryExpr{Op: token.NOT, X: &ast.ParenExpr{X: is.Cond}})
+					guard = append(append([]ast.Expr{}, guard...), &ast.UnaryExpr{Op: token.NOT, X: &ast.ParenExpr{X: expandBools(is.Cond, 0)}})
 				}
 			}
 		}
@@ -191,7 +244,7 @@ func analyseMapRange(mr mapRange) (findings []detFinding, accepted []string) {
 			if x.Init != nil {
 				walk(x.Init, guard)
 			}
-			walk(x.Body, append(append([]ast.Expr{}, guard...), x.Cond))
+			walk(x.Body, append(append([]ast.Expr{}, guard...), expandBools(x.Cond, 0)))
 			if x.Else != nil {
 				walk(x.Else, guard)
 			}
